@@ -436,7 +436,7 @@ def run(ctx):
     dist = {"natural": 0, "boundary": 0, "integer_span": 0, "linear": 0, "interp": 0, "impl_exceptions": 0,
             "model_singular": 0, "first_pass_observed": 0, "index_compare_skipped_near_threshold": 0,
             "second_pass_compare_skipped_near_threshold": 0, "second_pass_assigned_something": 0,
-            "first_pass_multi_candidate": 0, "events_min": 10 ** 9, "events_max": 0}
+            "model_skipped_huge_second_pass": 0, "events_min": 10 ** 9, "events_max": 0}
     inputs, keep, results = [], [], []
     nontrivial = set()
     for ci, case in enumerate(cases):
@@ -466,9 +466,23 @@ def run(ctx):
             tr = case["truth"]
             dres = abs(res["delta"] + tr["offset"] + tr["drift_ppm"] * 1e-6 * 0.5 * (case["tsa"][0] + case["tsa"][-1]))
             meas["max_coarse_offset_error_s"] = max(meas.get("max_coarse_offset_error_s", 0.0), dres)
+        if res.get("ib1") is not None:
+            # the model's second pass rescans the whole candidate matrix at every iteration (as the source does):
+            # keep its cost bounded when a first pass leaves very many events unassigned
+            nam = sum(1 for j in res["ib1"] if j < 0)
+            nbm = len(case["tsb"]) - len({j for j in res["ib1"] if j >= 0})
+            cost = nam * nbm * min(nam, nbm)
+            meas["max_second_pass_matrix_cost"] = max(meas.get("max_second_pass_matrix_cost", 0), cost)
+            if cost > 3_000_000:
+                dist["model_skipped_huge_second_pass"] += 1
+                continue
         inputs.append(enc_input(case, res["delta"]))
         keep.append(ci)
         results.append(res)
+    if dist["model_skipped_huge_second_pass"] > max(2, len(cases) // 100):
+        ctx.disagree("the first pass left so many events unassigned on %d trains that the model comparison was skipped; "
+                     "the unchanged code never does on these generators" % dist["model_skipped_huge_second_pass"],
+                     {"kind": "skipped"}, {"kind": "skipped"})
     ext = common.Extracted(PROP)
     outs = ext.run_many(inputs, nproc=min(6, max(1, len(inputs) // 50)))
     # parabolic_max (sub-bin peak interpolation) against its model, 1-D integer-valued arrays
